@@ -102,7 +102,10 @@ def _residue(draw, resname, prefix):
     atoms = [{"name": nm, "type": draw(st.sampled_from(TYPES))} for nm in names]
     # the force constant plays no part in the geometry a template has to meet: 0 (an angle kept for bookkeeping) too
     return {"resname": resname, "atoms": atoms, "bonds": bonds, "angles": angles, "impropers": impropers, "vs": vs,
-            "angle_fc": draw(st.sampled_from(["50", "50", "0", "0.0", "1250.5"]))}
+            "angle_fc": draw(st.sampled_from(["50", "50", "0", "0.0", "1250.5"])),
+            # harmonic bonds of function type 1, G96 bonds (2) or harmonic potentials (6): the reference length is
+            # the first parameter of all three
+            "bond_func": draw(st.sampled_from(["1", "1", "1", "2", "6"]))}
 
 
 @st.composite
@@ -235,7 +238,7 @@ def render_top(spec):
             f = first[r]
             for kind, a, b, length in rd["bonds"]:
                 if kind == "bonds":
-                    secs["bonds"].append(f"{f + a} {f + b} 1 {_f(length)} 1000")
+                    secs["bonds"].append(f"{f + a} {f + b} {rd.get('bond_func', '1')} {_f(length)} 1000")
                 else:
                     secs["constraints"].append(f"{f + a} {f + b} 1 {_f(length)}")
             for a, b, c, func, val in rd["angles"]:
